@@ -170,7 +170,14 @@ def unencodable_case(ctx, index, r):
         ('frozenset', frozenset(['gut'])), ('Decimal', decimal.Decimal('1.5')),
         ('complex', 3 + 4j), ('Path', pathlib.PurePosixPath('/a/b')),
         ('set', {'a'}), ('datetime', _dt.datetime(2020, 1, 2, 3, 4)),
-        ('object', object())])
+        ('object', object()),
+        # numpy scalars JSON has no form for either
+        ('datetime64-ns', np.datetime64('2021-03-04T05:06:07.000000008')),
+        ('datetime64-D', np.datetime64('2021-03-04')),
+        # (np.timedelta64 is left out: numpy files it under np.integer, and
+        # the writer treats it as the integer it is there)
+        ('complex128', np.complex128(1 + 2j)), ('bytes_', np.bytes_(b'AC')),
+        ('void', np.array([(1, 2.5)], dtype=[('a', 'i4'), ('b', 'f8')])[0])])
     md = [{'k': 'plain', 'v': 1} for _ in obs]
     md[r.randrange(n)]['v'] = val
     axis = r.choice(['observation', 'sample'])
